@@ -11,40 +11,42 @@ Section LoadRootProofs.
   Hypothesis HK : key_sound U W.
   Hypothesis HW : requirements_closed U W.
 
-  (** Load fails or Project.buildList is the solution of the project's own configuration -- provided the root has one
-      configuration file only, or the failure mvs.BuildList reports is not a missing file *)
+  (** Load fails or Project.buildList is the solution of the graph of the project's own configuration (its dawn.toml
+      when it has one, whatever its .dawnconfig holds), over any cache that resolvers, faults, kills and damage from
+      outside have worked on *)
   Theorem load_root_fails_or_solution obs rne pick fuel (toml dot : root_file) (c : config) :
     project_config toml dot = Some c ->
-    (toml = RMissing \/ dot = RMissing \/ rne c = false) ->
     observed_damaged deliver W obs -> (forall m, In m (map snd c) -> fst m = [] \/ W m) ->
     (u_fuel U (map snd c) <= fuel)%nat ->
     (exists b, load_config_loop obs rne pick fuel toml dot = FErr b) \/
     (exists l, load_config_loop obs rne pick fuel toml dot = FOk l /\ mvs_solution (reachable_from U (map snd c)) l).
   Proof.
-    intros HP HS HO HR Hf.
+    intros HP HO HR Hf.
     pose proof (load_fails_or_solution U deliver W HD HK HW obs pick fuel c HO HR Hf) as HL.
     unfold load_config_loop. destruct toml as [| |c0]; simpl in HP; try discriminate.
-    - (* only .dawnconfig *)
-      destruct dot as [| |c1]; try discriminate. injection HP as ->. simpl.
+    - destruct dot as [| |c1]; try discriminate. injection HP as ->. simpl.
       destruct HL as [E|(l & E & S & _)]; rewrite E; eauto.
     - injection HP as ->. simpl.
       destruct HL as [E|(l & E & S & _)]; rewrite E; eauto.
-      destruct (rne c) eqn:En; eauto.
-      destruct HS as [HS|[->|HS]]; try discriminate. simpl. eauto.
   Qed.
+
+  (** the left-over file takes no part: the answer is that of a root that has the dawn.toml alone *)
+  Theorem load_root_ignores_left_over obs rne pick fuel (c : config) (dot : root_file) :
+    load_config_loop obs rne pick fuel (RConfig c) dot = load_config_loop obs rne pick fuel (RConfig c) RMissing.
+  Proof. reflexivity. Qed.
 End LoadRootProofs.
 
-(** REFUTED for a root with both files: project r/a (v1.0.0, no requirements); the root's dawn.toml requires it, its
+(** The former loadConfig (before 15786e0), REFUTED for a root with both files: project r/a (v1.0.0, no requirements); the root's dawn.toml requires it, its
     left-over .dawnconfig requires nothing; the cache entry of r/a v1.0.0 has lost its configuration file, so
     resolveProject fails with a "does not exist".  loadConfig takes that for a missing dawn.toml, loads .dawnconfig and
     Load succeeds with a build list that is not the solution of the project's requirement graph. *)
-Theorem load_root_left_over_refuted :
+Theorem load_root_former_refuted :
   exists (U : universe) (c c' : config) (keys : list node) (l : list (str * version)),
     let obs := obs_damaged U keys in
     project_config (RConfig c) (RConfig c') = Some c /\
-    (forall pick, load_config_loop obs (fun _ => true) pick (u_fuel U (map snd c)) (RConfig c) (RConfig c') = FOk l) /\
+    (forall pick, load_config_loop_former obs (fun _ => true) pick (u_fuel U (map snd c)) (RConfig c) (RConfig c') = FOk l) /\
     ~ mvs_solution (reachable_from U (map snd c)) l /\
-    (forall pick, load_config_loop (obs_damaged U []) (fun _ => true) pick (u_fuel U (map snd c)) (RConfig c) (RConfig c') <> FOk l).
+    (forall pick, exists b, load_config_loop obs (fun _ => true) pick (u_fuel U (map snd c)) (RConfig c) (RConfig c') = FErr b).
 Proof.
   set (a := [114; 47; 97]). set (v := VSem (mkSV 1 0 0 [])).
   exists (mkU [114] [((a, v), 1)] [((a, 1), mkSum [] [])] [] [] []), [(a, (a, v))], [], [(a, v)], [([], VRoot)].
@@ -54,5 +56,5 @@ Proof.
     + eapply r_dep with (m := target) (l := [(a, v)]); [apply r_target|discriminate|reflexivity|left; reflexivity].
     + discriminate.
     + simpl in Hin. destruct Hin as [E|[]]. inversion E.
-  - intros pick. vm_compute. discriminate.
+  - intros pick. exists true. vm_compute. reflexivity.
 Qed.
